@@ -136,6 +136,28 @@ def make_symset(G, symbolic):
     return SymSet
 
 
+def _has_str(x, depth=0):
+    if isinstance(x, (str, bytes)):
+        return True
+    if isinstance(x, (tuple, frozenset)) and depth < 4:
+        return any(_has_str(y, depth + 1) for y in x)
+    return False
+
+
+def make_hash(G):
+    """the builtin hash as the interpreter's hash seed makes it: for values containing strings the result differs
+    from run to run (salted with the run's epoch); everything else hashes as usual."""
+    import builtins
+
+    def hash_(x):
+        if _has_str(x):
+            G.g.note("hash-of-string-called")
+            G.touched.append("hash(str)")
+            return builtins.hash((x, "hash-seed", G.epoch))
+        return builtins.hash(x)
+    return hash_
+
+
 def scan_set_displays():
     """set displays / comprehensions in the pams sources cannot be intercepted by name: count them."""
     n = 0
@@ -214,7 +236,8 @@ def observe_run(pams, settings, seed, with_logger=True):
 
         def hooked_after_step_for_market(self, simulator, market):
             if market.get_time() % 2 == 1 and market.market_id == 0:
-                market.change_fundamental_price(scale=1.01)
+                # acts on a draw from the generator the runner handed to this event
+                market.change_fundamental_price(scale=1.0 + 0.01 * self.prng.random())
 
     class Rec(Logger):
         def process(self, logs):
@@ -272,7 +295,8 @@ class Reproducible(Harness):
               "thorough": "seeds {2, 7, 11, 12345}"}
     stubs = ("random.* module functions, numpy.random.* legacy functions, time.*, os.urandom -> nondeterministic stubs",
              "random.Random() / numpy default_rng() without a seed -> reported",
-             "the name `set` in every pams module -> set whose iteration order over strings is solver-chosen")
+             "the name `set` in every pams module -> set whose iteration order over strings is solver-chosen",
+             "the name `hash` in every pams module -> for values containing strings, a result that differs between the compared runs")
     assumptions = ("bit-level determinism of CPython's Mersenne Twister, NumPy's Generator and SciPy for a given seed",
                    "the interpreter's hash seed can influence a run only through str hashing, i.e. the iteration order "
                    "of sets of strings created by calling set(...) (set displays / comprehensions are counted by a "
@@ -297,7 +321,7 @@ class Reproducible(Harness):
             # reference: pristine process state, identity set order
             pams = fresh_pams()
             G.epoch = 0
-            self.inject(pams, make_symset(G, symbolic=False))
+            self.inject(pams, make_symset(G, symbolic=False), make_hash(G))
             ref, given = observe_run(pams, settings, case["seed"])
             g.require(given == pristine, "C07.settings-modified", "running modified the caller's settings object")
             g.require(settings == pristine, "C07.settings-modified")
@@ -305,12 +329,12 @@ class Reproducible(Harness):
                 g.note("nontrivial")
             # second: after a different simulation in the same process, other global values, any set order
             pams = fresh_pams()
-            self.inject(pams, make_symset(G, symbolic=False))
+            self.inject(pams, make_symset(G, symbolic=False), make_hash(G))
             G.epoch = 1
             observe_run(pams, other, case["seed"] + 1)
             observe_run(pams, settings, case["seed"] + 5)
             G.epoch = 2
-            self.inject(pams, make_symset(G, symbolic=True))
+            self.inject(pams, make_symset(G, symbolic=True), make_hash(G))
             again, _ = observe_run(pams, settings, case["seed"])
             g.require(len(ref) == len(again), "C07.outcome-differs",
                       f"{len(ref)} observations in the reference run, {len(again)} in the repeated run")
@@ -331,10 +355,12 @@ class Reproducible(Harness):
             G.restore()
 
     @staticmethod
-    def inject(pams, symset):
+    def inject(pams, symset, hash_=None):
         for k, mod in list(sys.modules.items()):
             if k == "pams" or k.startswith("pams."):
                 mod.__dict__["set"] = symset
+                if hash_ is not None:
+                    mod.__dict__["hash"] = hash_
 
 
 def post(tier, stats):
